@@ -6,6 +6,7 @@ import struct
 
 from sim import codec as C
 from sim.net import SimSocket
+from sim.net import SimStall
 from sim.world import World
 from .base import RunResult
 
@@ -388,6 +389,14 @@ class ReadPathRun:
             outcome, val = "invalid", e
         except NotConnectedError:
             outcome = "notconnected"
+        except SimStall as e:
+            # the reader waits for bytes that no frame of the script declares (the server keeps sending and the
+            # wait never ends): it has lost the framing
+            res.add("C08", "misaligned", f"call #{self.calls}: read_message waits for ever for more payload than any frame "
+                                         f"declares ({e})", sig="reader_waits_for_ever")
+            outcome = "lost"
+            self.t(f"read_message(timeout={timeout}) never returns")
+            return outcome
         except Exception as e:   # anything else is undocumented
             outcome, val = "other", e
         pos1 = self.consumed
@@ -667,6 +676,14 @@ class ReadPathRun:
                     res.probes["disconnected_state_checked"] += 1
                 except Exception:
                     pass
+        except SimStall as e:
+            # somewhere in a call of the client API the reader waits for bytes that no frame of the script declares,
+            # while the scripted server keeps sending: it has lost the framing (on an intact stream every read ends)
+            if getattr(self, "handshake_done", False):
+                res.add("C08", "misaligned", f"the client waits for ever for more payload than any frame declares ({e})",
+                        sig="reader_waits_for_ever")
+            else:
+                raise
         finally:
             if getattr(self, "client", None) is not None:
                 self.client._connected = False
